@@ -163,8 +163,10 @@ def rejections(ctx, name, op, rng, x):
             else:
                 op(b)
             ctx.violation(comp, cfg, 'bad-x-accepted', name=name, probe=bname)
-        except TypeError:   # OpDomainError / OpRangeError / OpTypeError derive from TypeError
+        except odl.OpDomainError:
             pass
+        except TypeError as e:   # a domain *type error* (OpDomainError) is asked for, measured: 0 plain TypeErrors on the unchanged tree
+            ctx.violation(comp, cfg, 'wrong-exception:' + type(e).__name__, name=name, probe=bname, message=str(e)[:200])
         except (odl.OpNotImplementedError, NotImplementedError):
             pass
         except Exception as e:
@@ -178,8 +180,10 @@ def rejections(ctx, name, op, rng, x):
             try:
                 op(x, out=b)
                 ctx.violation(comp, cfg, 'bad-out-accepted', name=name, probe=bname)
-            except TypeError:
+            except odl.OpRangeError:
                 pass
+            except TypeError as e:
+                ctx.violation(comp, cfg, 'wrong-exception:' + type(e).__name__, name=name, probe='out=' + bname, message=str(e)[:200])
             except (odl.OpNotImplementedError, NotImplementedError):
                 pass
             except Exception as e:
